@@ -271,6 +271,22 @@ def monitor3(ctx, hooks, rng):
             break
     if any(v != m1 for v in seen_inside):
         ctx.violation("context-not-applied", f"inside a decorated function the default was {sorted(set(seen_inside))}, expected {m1!r}", wit)
+    # the plain setter called INSIDE a context (entered with the mode in force or another one),
+    # with and without an error afterwards: leaving the context restores what was there before
+    for boom_ in (False, True):
+        mX = start if rng.random() < 0.5 else rng.choice(["fused", "blockwise", "auto"])
+        m3 = rng.choice([m for m in ("fused", "blockwise", "auto") if m != start])
+        try:
+            with sr.default_tensordot_mode(mX):
+                sr.set_default_tensordot_mode(m3)
+                if hooks.default_mode() != m3:
+                    ctx.violation("setter-not-applied", f"set_default_tensordot_mode({m3!r}) inside a context left {hooks.default_mode()!r}", wit)
+                if boom_:
+                    raise Boom()
+        except Boom:
+            pass
+        ctx.count("m3", "setter-inside-context" + (":entered-with-the-mode-in-force" if mX == start else ""))
+        check(f"a context entered with {mX!r} (in force before: {start!r}) whose body called set_default_tensordot_mode({m3!r})" + (" and raised" if boom_ else ""))
     sr.set_default_tensordot_mode(None)
     check("set_default_tensordot_mode(None)")
     sr.set_default_tensordot_mode("auto")
